@@ -118,7 +118,7 @@ def K(st, s, tag="aux"):
 
 def pending_grows(old, st):
     x = z3.Int("pg!x")
-    return forall([x], z3.Implies(old.ghost["pending"][x], st.ghost["pending"][x]), patterns=[old.ghost["pending"][x]])
+    return forall([x], z3.Implies(old.ghost["pending"][x], st.ghost["pending"][x]), patterns=[old.ghost["pending"][x], st.ghost["pending"][x]])
 
 
 def only_deque_changes(old, st, s):
